@@ -15,6 +15,7 @@ import (
 	"reflect"
 	"runtime"
 	"slices"
+	"sync"
 	"time"
 
 	"github.com/btcsuite/btcd/btcec/v2"
@@ -66,6 +67,11 @@ type Mint struct {
 	publisher *pubsub.PubSub
 	ctx       context.Context
 	cancel    context.CancelFunc
+
+	// proofsMu serializes the sequences that check whether proofs are
+	// pending/spent and then mark them (swap, melt, settling a melt), so that
+	// two concurrent requests cannot both pass the check for the same proof.
+	proofsMu *sync.Mutex
 }
 
 func LoadMint(config Config) (*Mint, error) {
@@ -119,6 +125,7 @@ func LoadMint(config Config) (*Mint, error) {
 		publisher:  pubsub.NewPubSub(),
 		ctx:        ctx,
 		cancel:     cancel,
+		proofsMu:   &sync.Mutex{},
 	}
 
 	// if no keysets stored, just create a new one
@@ -516,6 +523,9 @@ func (m *Mint) Swap(proofs cashu.Proofs, blindedMessages cashu.BlindedMessages) 
 		return nil, cashu.InsufficientProofsAmount
 	}
 
+	m.proofsMu.Lock()
+	defer m.proofsMu.Unlock()
+
 	if err := m.verifyProofs(proofs, Ys); err != nil {
 		return nil, err
 	}
@@ -695,12 +705,15 @@ func (m *Mint) GetMeltQuoteState(ctx context.Context, quoteId string) (storage.M
 			m.logInfof("payment %v succeded. setting melt quote '%v' to paid and invalidating proofs",
 				meltQuote.PaymentHash, meltQuote.Id)
 
+			m.proofsMu.Lock()
 			proofs, err := m.removePendingProofsForQuote(meltQuote.Id)
 			if err != nil {
+				m.proofsMu.Unlock()
 				errmsg := fmt.Sprintf("error removing pending proofs for quote: %v", err)
 				return storage.MeltQuote{}, cashu.BuildCashuError(errmsg, cashu.DBErrCode)
 			}
 			err = m.db.SaveProofs(proofs)
+			m.proofsMu.Unlock()
 			if err != nil {
 				errmsg := fmt.Sprintf("error invalidating proofs. Could not save proofs to db: %v", err)
 				return storage.MeltQuote{}, cashu.BuildCashuError(errmsg, cashu.DBErrCode)
@@ -794,27 +807,37 @@ func (m *Mint) MeltTokens(ctx context.Context, meltTokensRequest nut05.PostMeltB
 		return storage.MeltQuote{}, cashu.QuotePending
 	}
 
-	err = m.verifyProofs(proofs, Ys)
+	// verify the proofs and set them as pending while holding proofsMu
+	err = func() error {
+		m.proofsMu.Lock()
+		defer m.proofsMu.Unlock()
+
+		err := m.verifyProofs(proofs, Ys)
+		if err != nil {
+			return err
+		}
+
+		fees := m.TransactionFees(proofs)
+		// checks if amount in proofs is enough
+		if proofsAmount < meltQuote.Amount+meltQuote.FeeReserve+uint64(fees) {
+			return cashu.InsufficientProofsAmount
+		}
+
+		if nut11.ProofsSigAll(proofs) {
+			return nut11.SigAllOnlySwap
+		}
+
+		m.logInfof("verified proofs in melt tokens request. Setting proofs as pending before attempting payment.")
+		// set proofs as pending before trying to make payment
+		err = m.db.AddPendingProofs(proofs, meltQuote.Id)
+		if err != nil {
+			errmsg := fmt.Sprintf("error setting proofs as pending in db: %v", err)
+			return cashu.BuildCashuError(errmsg, cashu.DBErrCode)
+		}
+		return nil
+	}()
 	if err != nil {
 		return storage.MeltQuote{}, err
-	}
-
-	fees := m.TransactionFees(proofs)
-	// checks if amount in proofs is enough
-	if proofsAmount < meltQuote.Amount+meltQuote.FeeReserve+uint64(fees) {
-		return storage.MeltQuote{}, cashu.InsufficientProofsAmount
-	}
-
-	if nut11.ProofsSigAll(proofs) {
-		return storage.MeltQuote{}, nut11.SigAllOnlySwap
-	}
-
-	m.logInfof("verified proofs in melt tokens request. Setting proofs as pending before attempting payment.")
-	// set proofs as pending before trying to make payment
-	err = m.db.AddPendingProofs(proofs, meltQuote.Id)
-	if err != nil {
-		errmsg := fmt.Sprintf("error setting proofs as pending in db: %v", err)
-		return storage.MeltQuote{}, cashu.BuildCashuError(errmsg, cashu.DBErrCode)
 	}
 	meltQuote.State = nut05.Pending
 	err = m.db.UpdateMeltQuote(meltQuote.Id, "", nut05.Pending)
@@ -832,17 +855,9 @@ func (m *Mint) MeltTokens(ctx context.Context, meltTokensRequest nut05.PostMeltB
 		if err != nil {
 			return storage.MeltQuote{}, err
 		}
-		err := m.db.RemovePendingProofs(Ys)
-		if err != nil {
-			errmsg := fmt.Sprintf("error removing pending proofs: %v", err)
-			return storage.MeltQuote{}, cashu.BuildCashuError(errmsg, cashu.DBErrCode)
+		if err := m.settleProofs(Ys, proofs); err != nil {
+			return storage.MeltQuote{}, err
 		}
-		err = m.db.SaveProofs(proofs)
-		if err != nil {
-			errmsg := fmt.Sprintf("error invalidating proofs. Could not save proofs to db: %v", err)
-			return storage.MeltQuote{}, cashu.BuildCashuError(errmsg, cashu.DBErrCode)
-		}
-		m.publishProofsStateChanges(proofs, nut07.Spent)
 	} else {
 		var sendPaymentResponse lightning.PaymentStatus
 		// if melt is MPP, pay partial amount. If not, send full payment
@@ -991,6 +1006,10 @@ func (m *Mint) settleQuotesInternally(
 // settleProofs will remove the proofs from the pending table
 // and mark them as spent by adding them to the used proofs table
 func (m *Mint) settleProofs(Ys []string, proofs cashu.Proofs) error {
+	// between the two writes the proofs are in neither table
+	m.proofsMu.Lock()
+	defer m.proofsMu.Unlock()
+
 	err := m.db.RemovePendingProofs(Ys)
 	if err != nil {
 		errmsg := fmt.Sprintf("error removing pending proofs: %v", err)
